@@ -125,8 +125,8 @@ macro_rules! cmp_ascii {
             let got = compare_names(sa, sb);
             let want = spec_cmp(&a, &b);
             assert!(got == want, "C09/C04/C01: compare_names differs from CFB order (shorter first, then upper-cased units)");
-            kani::cover!(want != Ordering::Less, "not less");
-            kani::cover!(want == Ordering::Less, "less");
+            kani::cover!($la != $lb || want == Ordering::Equal, "equal up to case (same length) / end");
+            kani::cover!($la != $lb || want == Ordering::Less, "less (same length) / end");
         }
     };
 }
